@@ -1,4 +1,5 @@
-import HecsModel.Lemmas.WorldInv
+import HecsModel.Lemmas.WorldInvStep
+import HecsModel.Lemmas.WorldInvCex
 /-
   C01 — World is observationally a map Entity → set of typed components.
   Property theorems only; helper lemmas live in `Lemmas/`.
@@ -8,5 +9,28 @@ open Hecs
 
 /-- the initial world satisfies the representation invariant -/
 theorem inv_new : World.new.Inv := World.inv_new
+
+/-- every in-contract operation (`Op.WF`, decidable) preserves the representation invariant -/
+theorem inv_step (w : World) (op : Op) (hop : op.WF) : w.Inv → (step w op).1.Inv := World.inv_step w op hop
+
+/-- every world reachable by in-contract operations satisfies the representation invariant -/
+theorem inv_run (ops : List Op) (hops : ∀ op, op ∈ ops → op.WF) : (run ops).Inv := World.inv_run ops hops
+
+/-- after `flush` nothing is reserved -/
+theorem flush_flushed (w : World) : w.Inv → (w.flush).cursor = (w.flush).pending.size := World.flush_flushed w
+
+/-- the side condition of `inv_step` is needed: a bundle naming a type twice breaks the invariant -/
+theorem inv_step_needs_wf_spawn : ¬ (step World.new (.spawn [(1,0),(1,1)])).1.Inv := World.cex_spawn_dup
+
+/-- … so does `reserve` of a bundle type with a repeated component type -/
+theorem inv_step_needs_wf_reserve : ¬ (step World.new (.reserve [1,1])).1.Inv := World.cex_reserve_dup
+
+/-- … a column batch whose type list is not in canonical order -/
+theorem inv_step_needs_wf_columnBatch : ¬ (step World.new (.spawnColumnBatch [2,1] [])).1.Inv :=
+  World.cex_columnBatch_unsorted
+
+/-- … and a batch row whose types differ from the batch's type -/
+theorem inv_step_needs_wf_spawnBatch : ¬ (step World.new (.spawnBatch [1] [[(2,0)]])).1.Inv :=
+  World.cex_spawnBatch_row
 
 end Hecs.Props.C01
